@@ -39,9 +39,9 @@ func init() {
 }
 
 func c15Run(x *core.Ctx) {
-	ns := 80
+	ns := 200
 	if !x.Quick() {
-		ns = 2400
+		ns = 6000
 	}
 	r := x.Rand(uint64(x.Shard))
 	rn := &model.Renderer{}
